@@ -618,6 +618,41 @@ def check_histories(ctx, envs):
                                       o.value if o.ok else o.brief(),
                                       f'c_material {a}->{b} after density/molar mass were changed ({how}) = {o.value if o.ok else o.brief()} but the current properties give {ref}',
                                       {'changed_by': how}))
+    # the material an isotherm was given is the material its per-material conversions use: how it was given (name, dict, object) and what
+    # else is registered in the session under the same name do not matter
+    import pandas
+    from pygaps import PointIsotherm
+    base_list = list(pygaps.MATERIAL_LIST)
+    own = dict(density=2.0, molar_mass=100.0)
+    try:
+        for registered in (None, dict(density=3.5, molar_mass=250.0), dict()):
+            for given in ('Material object', 'dict', 'Material object registered first'):
+                pygaps.MATERIAL_LIST[:] = base_list
+                mine = pygaps.Material('c01-shared-name', **own)
+                if given == 'Material object registered first':
+                    pygaps.MATERIAL_LIST.append(mine)
+                if registered is not None:
+                    pygaps.MATERIAL_LIST.append(pygaps.Material('c01-shared-name', **registered))
+                arg = mine if given.startswith('Material') else dict(name='c01-shared-name', **own)
+                mk = core.call(PointIsotherm, pressure=[0.1, 0.5, 1.0], loading=[1.0, 2.0, 3.0], material=arg, adsorbate='N2', temperature=77.355,
+                               pressure_mode='absolute', pressure_unit='bar', loading_basis='molar', loading_unit='mmol', material_basis='mass', material_unit='g',
+                               temperature_unit='K')
+                if not mk.ok:
+                    continue
+                if given == 'dict' and registered:
+                    continue        # a dict names a material AND (re)defines its properties: with another definition registered the outcome is a design choice
+                for (mb, mu) in (('volume', 'cm3'), ('molar', 'mmol')):
+                    o = core.call(mk.value.loading, material_basis=mb, material_unit=mu)
+                    ref = numpy.array([ru.c_material(x, 'mass', 'g', mb, mu, own) for x in (1.0, 2.0, 3.0)])
+                    ev += 1
+                    nt += 1
+                    if not o.ok or numpy.abs(numpy.asarray(o.value, dtype=float) - ref).max() > TOL_SI * numpy.abs(ref).max():
+                        ctx.violate(_viol('conversion-uses-another-material', 'material',
+                                          {'given_as': given, 'registered_under_the_same_name': registered, 'to': (mb, mu)}, ref, o.value if o.ok else o.brief(),
+                                          f'isotherm created with its material given as {given} {own}; a material of the same name with {registered} is registered: '
+                                          f'loading per {mb} {mu} = {o.value if o.ok else o.brief()} but the isotherm\'s own material gives {ref}', {'given_as': given}))
+    finally:
+        pygaps.MATERIAL_LIST[:] = base_list
     ctx.add('histories', ev, nt)
 
 
